@@ -93,12 +93,47 @@ def run_edges(spec, tier, seed, res):
                                           {'engine': 'scen', 'persona': base_p.describe(), 'increment': inc, 'shard': spec})
 
 
+def run_use_tax_edge(spec, tier, seed, res):
+    """N.C. taxable income stepping over the limits of the consumer use tax table (estimated use tax, no records), in
+    particular over its end at 45,200 where the table gives way to a rate: the total N.C. tax never falls."""
+    from hv import scen
+    from hv import statutory as st
+    year = spec['year']
+    for lim in (st.NC_USE_TAX_LIMITS[-1], st.NC_USE_TAX_LIMITS[-2], st.NC_USE_TAX_LIMITS[0], st.NC_USE_TAX_LIMITS[12]):
+        p0 = scen.plain_persona(year, 'S', 60000.0, key=f'usetaxedge:{lim}', nc=True)
+        p0.ncv.update({'no_consumer_use_tax': False, 'full_records': False})
+        o0 = scen.solve_persona(p0)
+        if o0.exc is not None or o0.ret is not True:
+            continue
+        l14 = scen.typed_solution(o0).get('nc_d-400.14')
+        if l14 is None:
+            continue
+        seq = []
+        for d in (-40.0, -1.0, 0.0, 10.0, 260.0, 560.0, 2000.0):
+            p = scen.plain_persona(year, 'S', 60000.0 + (lim + d - l14), key=f'usetaxedge:{lim}:{d}', nc=True)
+            p.ncv.update({'no_consumer_use_tax': False, 'full_records': False})
+            o = scen.solve_persona(p)
+            res.evaluations += 1
+            if o.exc is not None or o.ret is not True:
+                continue
+            t = scen.typed_solution(o)
+            seq.append((d, t.get('nc_d-400.14'), t.get('nc_d-400.19'), t.get('nc_d-400.18'), p))
+        for (d0, i0, t0, u0, _), (d1, i1, t1, u1, p1) in zip(seq, seq[1:]):
+            res.count('pairs_compared')
+            res.count('pairs_use_tax_edge')
+            res.distinct.add(f'{year}|use-tax-edge|{lim}|{d1}')
+            if t0 is not None and t1 is not None and t1 < t0 - 0.51:
+                res.violation(f'C16|{year}|wages+|use-tax-table-edge|nc_d-400.19', f'{year}: N.C. taxable income {i0} -> {i1} (wages +{d1 - d0}) lowered the total N.C. tax (line 19) from {t0} to {t1} (use tax {u0} -> {u1})',
+                              {'engine': 'scen', 'persona': p1.describe(), 'shard': spec})
+
+
 def run_shard(spec, tier, seed):
     from hv import scen, drive, realwork
     res = Result()
     year = spec['year']
     if spec.get('kind') == 'edges':
         run_edges(spec, tier, seed, res)
+        run_use_tax_edge(spec, tier, seed, res)
         return res
     rng = rng_for('C16', seed, spec)
     todo = list(scen.directed_personas(year, f"{seed}:{spec['part']}" if spec.get('part') else seed, spec['n'])) if spec.get('directed') else [(fam, p) for fam in spec['families'] for p in scen.personas(seed, year, fam, spec['n'])]
@@ -193,6 +228,8 @@ def run_shard(spec, tier, seed):
                             return f'wages +{inc} lowered total tax (line 24) from {base.get("1040.24")} to {t.get("1040.24")}'
                         if 'nc_d-400.17' in t and 'nc_d-400.17' in base and t['nc_d-400.17'] < base['nc_d-400.17'] - 0.51:
                             return f'wages +{inc} lowered the NC income tax (D-400 line 17) from {base["nc_d-400.17"]} to {t["nc_d-400.17"]}'
+                        if 'nc_d-400.19' in t and 'nc_d-400.19' in base and t['nc_d-400.19'] < base['nc_d-400.19'] - 0.51:
+                            return f'wages +{inc} lowered the total NC tax (D-400 line 19, with the consumer use tax) from {base["nc_d-400.19"]} to {t["nc_d-400.19"]}'
                         return None
                     compare(f'wages+:{inc}', ans, chk, 'w-2.box_1')
             # ---- (b') a larger deductible expense never raises total tax
@@ -210,6 +247,8 @@ def run_shard(spec, tier, seed):
                         return f'{d} +{inc} raised total tax (line 24) from {base.get("1040.24")} to {t.get("1040.24")}'
                     if 'nc_d-400.17' in t and 'nc_d-400.17' in base and t['nc_d-400.17'] > base['nc_d-400.17'] + 0.51:
                         return f'{d} +{inc} raised the NC income tax (D-400 line 17) from {base["nc_d-400.17"]} to {t["nc_d-400.17"]}'
+                    if 'nc_d-400.19' in t and 'nc_d-400.19' in base and t['nc_d-400.19'] > base['nc_d-400.19'] + 0.51:
+                        return f'{d} +{inc} raised the total NC tax (D-400 line 19) from {base["nc_d-400.19"]} to {t["nc_d-400.19"]}'
                     return None
                 mech = d
                 # mechanism of a known finding: in 2021 the larger expense switches the return to itemizing, which
@@ -252,13 +291,16 @@ def run_shard(spec, tier, seed):
             # ---- (c') the same for N.C. tax withheld (W-2 box 17 / the state boxes of the 1099s, when the state is NC)
             if 'nc_d-400.23' in base or 'nc_d-400.25' in base:
                 pairs = ((r'^w-2:\d+\.box_17$', 'box_15'), (r'^1099-int:\d+\.box_17_1$', 'box_15_1'), (r'^1099-div:\d+\.box_16_1$', 'box_14_1'),
-                         (r'^1099-g:\d+\.box_11_1$', 'box_10a_1'), (r'^1099-r:\d+\.box_14_1$', 'box_14_1_state'))
+                         (r'^1099-g:\d+\.box_11_1$', 'box_10a_1'), (r'^1099-r:\d+\.box_14_1$', 'box_14_1_state'),
+                         # the second state row of each statement
+                         (r'^1099-int:\d+\.box_17_2$', 'box_15_2'), (r'^1099-div:\d+\.box_16_2$', 'box_14_2'),
+                         (r'^1099-g:\d+\.box_11_2$', 'box_10a_2'), (r'^1099-r:\d+\.box_14_2$', 'box_14_2_state'))
                 swh = []
                 for k in sorted(base_ans):
                     for pat, statebox in pairs:
                         if re.match(pat, k) and base_ans.get(k.split('.')[0] + '.' + statebox, '').strip().upper() == 'NC':
                             swh.append(k)
-                for k in (swh if tier != 'quick' else rng.sample(swh, min(3, len(swh)))):
+                for k in (swh if (tier != 'quick' or spec.get('directed')) else rng.sample(swh, min(3, len(swh)))):
                     inc = rng.choice([1, 10, 250])
                     ans = dict(base_ans)
                     ans[k] = f'{fnum(ans[k]) + inc:.2f}'
